@@ -36,6 +36,18 @@ LEXEMES = {
     "SUPERSCRIPT_EXPONENT": ["²", "⁻¹", "⁰", "¹" * 50, "⁻⁰", "¹" * 4400],
 }
 TERMS = list(LEXEMES)
+# (d) full product of lexemes per position (not in lockstep) for the short sequences: an SI-
+# prefixed, an IEC-prefixed and an unknown symbol; small and 400-digit exponents of both
+# signs (prefixes of different bases are combined in floating point, where 10**400 overflows)
+MIX = {
+    "SIGNED_INT": ["5", "-0", "9" * 400],
+    "SIGNED_FLOAT": ["1.5", "1e999"],
+    "SYMBOL": ["km", "KiB", "zz", "kB"],
+    "_MULTIPLY": ["⋅"],
+    "_DIVIDE": ["/"],
+    "CARAT_EXPONENT": ["^2", "^" + "9" * 400, "^-" + "9" * 400],
+    "SUPERSCRIPT_EXPONENT": ["²", "⁹" * 400, "⁻" + "⁹" * 400],
+}
 
 
 def reg_sizes(m):
@@ -59,8 +71,17 @@ def expected_magnitude(text):
     if f and (not i or f.end() > i.end()):
         return float(f.group(0))
     if i:
-        return int(i.group(0))
+        try:
+            return int(i.group(0))
+        except ValueError:
+            # more digits than the interpreter converts: written as an int all the same
+            return TooLong
     return None
+
+
+class TooLong:
+    """Marker: the text is an integer literal too long for int(); an accepted quantity must
+    still have an int magnitude (value not compared)."""
 
 
 def parse_once(m, perr, entry, text):
@@ -105,10 +126,30 @@ def check_text(m, perr, entry, text, viols):
     if entry == "quantity":
         mag = v.magnitude
         exp = expected_magnitude(text)
-        ok = type(mag) in (int, float) and exp is not None and type(mag) is type(exp) and (mag == exp or (isinstance(mag, float) and math.isnan(mag) and math.isnan(exp)))
+        if exp is TooLong:
+            ok = type(mag) is int
+        else:
+            ok = type(mag) in (int, float) and exp is not None and type(mag) is type(exp) and (mag == exp or (isinstance(mag, float) and math.isnan(mag) and math.isnan(exp)))
         if not ok:
-            viols.append(("magnitude_not_as_written", f"{entry}: {shape_key(text)}", f"{short(text)!r} -> magnitude {str(mag)[:40]!r} ({type(mag).__name__}), written {str(exp)[:40]!r}", {"entry": entry, "text": text}))
+            viols.append(("magnitude_not_as_written", f"{entry}: {shape_key(text)}", f"{short(text)!r} -> magnitude {str(mag)[:40]!r} ({type(mag).__name__}), written {'an integer literal' if exp is TooLong else str(exp)[:40]!r}", {"entry": entry, "text": text}))
     return oc
+
+
+def attribute(w, m, perr, texts, viols):
+    """A batch of parses changed a registry's key set (sizes alone did not show it).  The
+    property only forbids that for REJECTED inputs: re-run the batch one text at a time from
+    the restored baseline, comparing full key sets around every rejected parse, and report
+    the culprit (a replayable single input).  Changes made by accepted parses are not
+    C17's business."""
+    w.restore()
+    for entry, text in texts:
+        k0 = reg_keys(m)
+        oc, _ = parse_once(m, perr, entry, text)
+        if oc != "value" and reg_keys(m) != k0:
+            viols.append(("rejection_changed_registries", f"{entry}: {shape_key(text)}",
+                          f"rejecting {short(text)!r} changed the set of registered names/symbols", {"entry": entry, "text": text}))
+            return
+    w.restore()
 
 
 def _string_chunk(args):
@@ -133,7 +174,7 @@ def _string_chunk(args):
         # full comparison per batch: accepted inputs may intern anonymous units, but no
         # parse may ever add or remove a name or a symbol
         if reg_keys(m) != keys0:
-            viols.append(("parsing_changed_names_or_symbols", f"batch {f!r} len {length}", "a registry's key set changed during a batch of parses", {"entry": "unit", "text": f}))
+            attribute(w, m, ParseError, [(entry, f + "".join(rest)) for rest in itertools.product(ALPHABET, repeat=length - 1) for entry in ENTRY], viols)
     w.restore()
     return n, viols, outcomes
 
@@ -177,8 +218,28 @@ def _seq_chunk(args):
                     oc2 = check_text(m, ParseError, entry, " ".join(mu), viols)
                     outcomes["mut:" + oc2] = outcomes.get("mut:" + oc2, 0) + 1
     if reg_keys(m) != keys0:
-        viols.append(("parsing_changed_names_or_symbols", f"token batch {entry}", "a registry's key set changed during a batch of parses", {"entry": entry, "text": ""}))
+        attribute(w, m, ParseError, [(entry, text) for seq, status in seqs for text, lex in render_all(seq, styles)], viols)
     w.restore()
+    return n, viols, outcomes
+
+
+def _mix_chunk(args):
+    entry, seqs = args
+    w = get_world()
+    m = w.m
+    from measured.parsing import ParseError
+
+    viols, outcomes, n = [], {}, 0
+    w.restore()
+    keys0 = reg_keys(m)
+    for seq, status in seqs:
+        for lex in itertools.product(*[MIX[t] for t in seq]):
+            n += 1
+            oc = check_text(m, ParseError, entry, " ".join(lex), viols)
+            outcomes["mix:" + oc] = outcomes.get("mix:" + oc, 0) + 1
+        if reg_keys(m) != keys0:
+            attribute(w, m, ParseError, [(entry, " ".join(lex)) for lex in itertools.product(*[MIX[t] for t in seq])], viols)
+        w.restore()
     return n, viols, outcomes
 
 
@@ -220,17 +281,34 @@ def run(rep, tier):
         rep.extend(r[1])
         for k, v in r[2].items():
             outcomes[k] = outcomes.get(k, 0) + v
+    mixlen = 6 if thorough else 5
+    mjobs = []
+    n_mix_seq = 0
+    for entry in ENTRY:
+        seqs = [s_ for s_ in token_sequences(T, entry, TERMS, mixlen)]
+        n_mix_seq += len(seqs)
+        for c in chunked(seqs, 8):
+            mjobs.append((entry, c))
+    n_mix = 0
+    for r in pmap(_mix_chunk, mjobs):
+        n += r[0]
+        n_mix += r[0]
+        rep.extend(r[1])
+        for k, v in r[2].items():
+            outcomes[k] = outcomes.get(k, 0) + v
     rep.cov.update(
         {
             "evaluations": n,
-            "distinct_nontrivial": n_str + nseq * styles * 2,
+            "distinct_nontrivial": n_str + nseq * styles * 2 + n_mix,
             "rule": f"(a) every string of length 1..{L} over a {len(ALPHABET)}-character alphabet x (Unit.parse, Quantity.parse); "
             f"(b) every viable token sequence up to {maxlen} tokens plus each first rejecting token, rendered in {styles} lexeme styles "
             "(ordinary, unknown symbols, huge exponents, 1e999, 4400-digit literals) with and without spaces; (c) all single-token "
-            "mutations of accepted sequences of <= 5 tokens. Every generated text is distinct; all count as non-trivial (each is parsed)",
+            "mutations of accepted sequences of <= 5 tokens; (d) for every token sequence up to {mixlen} tokens the full product of "
+            "lexemes per position (SI-prefixed / IEC-prefixed / byte-based / unknown symbols x small and 400-digit exponents of both signs). Every generated text is distinct; all count as non-trivial (each is parsed)",
             "alphabet": ALPHABET,
             "char_string_parses": n_str,
             "token_sequences": nseq,
+            "mixed_lexeme_parses": n_mix,
             "distinct_outcomes": dict(sorted(outcomes.items())),
             "samples": ["km/s²", "1e999 m", "5 zz", "m^99999999999", "%"],
             "exhaustive": True,
